@@ -154,16 +154,18 @@ def get (b : Bucket) (id : Bits) : Option Node := b.nodes.find? (fun x => x.id =
 /-- the rtt eviction test `node.rtt and n.rtt / node.rtt >= 2.0` (rtts are naturals here) -/
 def slower (newcomer : Node) (x : Node) : Bool := newcomer.rtt != 0 && x.rtt ≥ Gen.rttRatio * newcomer.rtt
 
+/-- the "make room if needed" part of `Bucket.add`: only when full, drop the first BAD node and then, independently,
+    the first node at least `rttRatio` times slower than the newcomer -/
+def evicted (m : Nat) (b : Bucket) (n : Node) : List Node :=
+  if b.nodes.length ≥ m then (b.nodes.eraseP (fun x => x.bad)).eraseP (slower n) else b.nodes
+
 /-- `Bucket.add`: new bucket and the returned boolean -/
 def add (m : Nat) (b : Bucket) (n : Node) : Bucket × Bool :=
   if !b.owns n.id then (b, false)
   else if b.nodes.any (fun x => x.id == n.id) then
     ({ b with nodes := b.nodes.map (fun x => if x.id == n.id then { x with addr := n.addr } else x) }, true)
-  else
-    let full := b.nodes.length ≥ m
-    let ns1 := if full then b.nodes.eraseP (fun x => x.bad) else b.nodes
-    let ns2 := if full then ns1.eraseP (slower n) else ns1
-    if ns2.length < m then ({ b with nodes := ns2 ++ [n] }, true) else ({ b with nodes := ns2 }, false)
+  else if (evicted m b n).length < m then ({ b with nodes := evicted m b n ++ [n] }, true)
+  else ({ b with nodes := evicted m b n }, false)
 
 /-- one step of the loop in `split` -/
 def splitStep (m : Nat) (acc : Bucket × Bucket) (n : Node) : Bucket × Bucket :=
@@ -296,13 +298,16 @@ def walk (strict : Bool) (t : Trie Bucket) (excl : Option Bits) (p : Bits) (k : 
 
 def closer (target : Bits) (a b : Node) : Bool := dist a.id target ≤ dist b.id target
 
+/-- `self.trie.longest_prefix(hash_binary, default="")` -/
+def closestPrefix (rt : RT) (target : Bits) : Bits :=
+  match rt.trie.lpi (fun _ => true) target with
+  | some (p, _) => p
+  | none => []
+
 /-- `closest_nodes(target, k, exclude)` -/
 def closest (rt : RT) (target : Bits) (k : Nat) (excl : Option Bits) : List Node :=
-  let p := match rt.trie.lpi (fun _ => true) target with
-    | some (p, _) => p
-    | none => []
-  let cand := walk Gen.closestBreakStrict rt.trie excl p k p.length []
-  (cand.mergeSort (closer target)).take k
+  ((walk Gen.closestBreakStrict rt.trie excl (rt.closestPrefix target) k (rt.closestPrefix target).length []).mergeSort
+    (closer target)).take k
 
 end RT
 
